@@ -195,3 +195,17 @@ Proof. vm_compute. repeat split. Qed.
 Lemma seeded_witness_ok :
   let s := sm2_run sm2_init seeded_witness in quiescent2 s = true /\ agree2 s = true.
 Proof. vm_compute. split; reflexivity. Qed.
+
+(* known finding D20j: the theorems above assume that only the initiator disconnects the
+   multiplexer.  If the responder does so while an open_dlc is in flight, the initiator's
+   multiplexer goes to DISCONNECTED with its open_result still pending (the call never
+   returns) and the responder keeps a half-open DLC *)
+Definition d20j_witness : list lbl2x :=
+  [X L_Connect; X L_DeliverAB; X L_DeliverBA; X (L_Open 0); X_BMuxDisc;
+   X L_DeliverAB; X L_DeliverBA; X L_DeliverAB; X L_DeliverBA; X L_DeliverAB; X L_DeliverBA].
+
+Lemma responder_muxdisc_refuted :
+  let s := sm2_runx sm2_init d20j_witness in
+  quiescent2 s = true /\ agree2 s = false /\
+  e_pend (t_a s) = Some 0 /\ slot (t_a s) 0 = None /\ slot (t_b s) 0 = Some DConnecting.
+Proof. vm_compute. repeat split. Qed.
